@@ -261,6 +261,42 @@ def _prove(conds, goal, depth=0, level=1, timeout_ms=None, seeds=(0, 7, 23), gro
                         new.append(z3.substitute_vars(c.body(), tm))
             extra.extend(new)
             pool = new
+    if level >= 3 and depth == 0:
+        # unfoldings of the recursive specification functions (their DEFINITIONS, instantiated — nothing is assumed): every ground
+        # application that occurs in the goal or in the instances gathered so far, and the applications that these unfoldings
+        # introduce, two levels deep
+        from .sorts import REC_DEFS
+        if REC_DEFS:
+            seen_apps = set()
+            frontier = [goal] + list(extra) + [c for c in conds if not z3.is_quantifier(c)]
+            for _lvl in range(2):
+                apps = {}
+
+                def find(t, d=0):
+                    if d > 40:
+                        return
+                    if z3.is_quantifier(t):
+                        return
+                    if z3.is_app(t):
+                        nm = t.decl().name()
+                        if nm in REC_DEFS and t.num_args() == len(REC_DEFS[nm][1]):
+                            key = str(t)
+                            if key not in seen_apps and len(key) < 600:
+                                apps[key] = t
+                        for ch in t.children():
+                            find(ch, d + 1)
+                for x in frontier:
+                    find(x)
+                apps = dict(sorted(apps.items(), key=lambda kv: len(kv[0]))[:24])
+                if not apps:
+                    break
+                seen_apps.update(apps)
+                new = []
+                for t in apps.values():
+                    f, params, body = REC_DEFS[t.decl().name()]
+                    new.append(t == z3.substitute(body, *[(p, a) for p, a in zip(params, t.children())]))
+                extra.extend(new)
+                frontier = new
     base = list(conds) + extra
     if z3.is_and(goal) and goal.num_args() > 1 and depth < 4:
         # the conjunction as a whole first (short budget): splitting usually helps, but not always
@@ -337,6 +373,8 @@ def solve(ob, use_cvc5=True, fast=False):
                 r, s = _check(list(ob.conds) + [z3.Not(ob.goal)], Z3_TIMEOUT_MS, seeds=(0,))
             if r == z3.unknown:  # ... plus the hypotheses instantiated at the sequence positions and dictionary keys of the path (two rounds)
                 r, s = _prove(list(ob.conds), ob.goal, level=2, timeout_ms=late, seeds=(0,))
+            if r == z3.unknown:  # ... plus instantiated definitions of the recursive specification functions that occur
+                r, s = _prove(list(ob.conds), ob.goal, level=3, timeout_ms=late, seeds=(0,))
     else:
         # reachability checks (cover / canary) only have to rule out vacuity: 'unknown' is acceptable, so they get a short budget
         r, s = _check(list(ob.conds), 2_000)
